@@ -1049,6 +1049,16 @@ def check_C07(ctx, unit, thorough=False):
                 n_paths += run_case(lo, hi, lb, ub, m, L, R)
                 if len(problems) > 6:
                     break
+    # who may call: the query callback is invoked nowhere but in the search whose structure was just decided (a second,
+    # specialised traversal -- e.g. for point queries -- would answer queries without any of the guarantees above)
+    for f2 in unit.functions:
+        if f2.owner_cls != IT or f2.did == g.did or (f2.owner_clsqn or "") != (g.owner_clsqn or ""):
+            continue
+        for n2 in f2.events():
+            if n2.kind == "CXXOperatorCallExpr" and n2.callee and n2.callee.get("op") == "()" and n2.args:
+                a0 = std_unwrap(n2.args[0])
+                if a0.kind == "DeclRefExpr" and a0.get("dk") == "ParmVar" and len(n2.args) == 2:
+                    problems.add("the query callback is also invoked in %s (at %s), outside the search whose structure is verified" % (f2.name, n2.loc))
     ctx.inst("E.search-structure", IT + "::_for_overlaps_in_subtree", not problems, g.loc,
              "; ".join(sorted(problems)[:3]) if problems else
              "%d valuations x recursive outcomes (%d paths): callback iff overlap; result = overlap or hit below; subtrees skipped only as the guard allows" % (n_cases, n_paths), g)
